@@ -140,6 +140,32 @@ Theorem C13_read24_ok_inv : forall W rt a st v s2,
     ea_read W rt (r24_addr a 2) s1 = Ok hh s2 /\\
     v = Z.lor (Z.lor (Z.shiftl hh 16) (Z.shiftl mm 8)) ll.
 Proof. exact read24_ok_inv. Qed.
+(* the three addresses: same bank, offset + k modulo 2^16 (never the next bank), below 2^24 *)
+Theorem C13_read24_addr : forall a k, 0 <= a < ABITS ->
+  r24_addr a k = (a / 65536) * 65536 + (a mod 65536 + k) mod 65536.
+Proof. exact r24_addr_arith. Qed.
+(* after ANY history of Attach calls: the bytes come from the memories last attached over the three in-bank
+   addresses, each handed its full address; one of them never attached: loud failure with nothing touched *)
+Theorem C13_read24_after_history : forall W h a st,
+  Forall call_wf h -> 0 <= a < ABITS ->
+  ea_read24_wrap W (run_calls empty_rt h) a st =
+  match last_cover h (r24_addr a 0), last_cover h (r24_addr a 1), last_cover h (r24_addr a 2) with
+  | Some m0, Some m1, Some m2 =>
+      match mem_read W m0 (r24_addr a 0) st with
+      | Panic s0 => Panic s0
+      | Ok ll s0 =>
+          match mem_read W m1 (r24_addr a 1) s0 with
+          | Panic s1 => Panic s1
+          | Ok mm s1 =>
+              match mem_read W m2 (r24_addr a 2) s1 with
+              | Panic s2 => Panic s2
+              | Ok hh s2 => Ok (Z.lor (Z.lor (Z.shiftl hh 16) (Z.shiftl mm 8)) ll) s2
+              end
+          end
+      end
+  | _, _, _ => Panic st
+  end.
+Proof. exact read24_after_history. Qed.
 Print Assumptions C13_attach_loop.
 Print Assumptions C13_attach_misaligned.
 Print Assumptions C13_attach_aligned_succeeds.
@@ -160,6 +186,8 @@ Print Assumptions C13_dump_refuted_today.
 Print Assumptions C13_read24_unattached_loud.
 Print Assumptions C13_read24_three_reads.
 Print Assumptions C13_read24_ok_inv.
+Print Assumptions C13_read24_addr.
+Print Assumptions C13_read24_after_history.
 """
 
 THEOREMS = [
@@ -183,6 +211,8 @@ THEOREMS = [
     ("C13_read24_unattached_loud", "EaRead24_wrap fails loudly, before any memory is touched, when one of its three addresses is unattached"),
     ("C13_read24_three_reads", "EaRead24_wrap = three single EaReads (low, middle, high; offset wraps inside the bank), little-endian"),
     ("C13_read24_ok_inv", "a successful EaRead24_wrap decomposes into three successful single EaReads"),
+    ("C13_read24_addr", "for every a < 2^24 and every k: byte k of EaRead24_wrap sits at bank(a)*65536 + (offset(a)+k) mod 65536"),
+    ("C13_read24_after_history", "after any Attach history EaRead24_wrap reads through the last covering memory of each of its three in-bank addresses, or fails loudly untouched"),
 ]
 
 DATA_HDR = """(* generated by checks/bus.py from the observations of harness/bustool.go on the tree under test *)
